@@ -238,8 +238,9 @@ def shrink_case(stream, case, still_bad, rounds=40):
             break  # very large cases (e.g. a burst of >1000 requests): report what we have
         cands = [c for c in stream.shrink(cur) if c != cur]
         # each round evaluates every candidate: keep a round affordable for huge cases
-        if len(cands) > 400:
-            cands = cands[:: max(1, len(cands) // 400)]
+        cap = max(8, min(400, 200000 // max(1, len(cur))))
+        if len(cands) > cap:
+            cands = cands[:: max(1, len(cands) // cap)][:cap]
         if not cands:
             break
         flags = still_bad(cands)
